@@ -88,18 +88,102 @@ def tystr(types, ix, depth=0):
     return t.get("s", k)
 
 
+BASELINE_IMPLS = os.path.join(os.path.dirname(os.path.abspath(__file__)), "tables", "impl_baseline.json")
+_IMPL_RE = None
+
+
+def _impl_sigs(d):
+    """module path -> [(impl number, (self type, trait, derived))] in numbering order."""
+    out = {}
+    for i in d["impls"]:
+        k = i["key"]
+        if "::{impl#" not in k:
+            continue
+        mod, n = k.rsplit("::{impl#", 1)
+        try:
+            n = int(n.rstrip("}"))
+        except ValueError:
+            continue
+        sig = (tystr(d["types"], i["self_ty"]) if i.get("self_ty") is not None else "?", i.get("trait"), bool(i.get("derived")))
+        out.setdefault(mod, []).append((n, sig))
+    for v in out.values():
+        v.sort()
+    return out
+
+
+def _impl_renumbering(d):
+    """{(module, current number): baseline number} for impls whose number differs from the committed baseline
+    (ea/tables/impl_baseline.json). Rule anchors name impl blocks by rustc's per-module ordinal `{impl#N}`; an added or
+    removed impl block elsewhere in the module shifts those ordinals without changing any behaviour, so the facts are
+    renumbered to the baseline by (Self type, trait, derived) signature. New impl blocks get numbers >= 1000."""
+    try:
+        with open(BASELINE_IMPLS) as f:
+            base = json.load(f).get(d["crate"] + ":" + d["crate_type"], {})
+    except (OSError, ValueError):
+        return {}
+    cur = _impl_sigs(d)
+    ren = {}
+    for mod, lst in cur.items():
+        b = [(n, tuple(sig)) for n, sig in base.get(mod, [])]
+        if [(n, s) for n, s in lst] == b:
+            continue
+        pool = {}
+        for n, sig in b:
+            pool.setdefault(sig, []).append(n)
+        for n, sig in lst:
+            q = pool.get(sig)
+            tgt = q.pop(0) if q else 1000 + n
+            if tgt != n:
+                ren[(mod, n)] = tgt
+    return ren
+
+
+def _renumber_text(text, ren):
+    import re
+    global _IMPL_RE
+    if _IMPL_RE is None:
+        _IMPL_RE = re.compile(r'((?:elvis_core|elvis)(?:::(?:[A-Za-z0-9_]+|\{[a-z_]+#\d+\}))*?)::\{impl#(\d+)\}')
+
+    def sub(m):
+        # the module of an impl is the longest prefix without another {impl#..}; nested impls are rewritten left to right
+        tgt = ren.get((m.group(1), int(m.group(2))))
+        return m.group(0) if tgt is None else "%s::{impl#%d}" % (m.group(1), tgt)
+    prev = None
+    while prev != text:
+        prev = text
+        text = _IMPL_RE.sub(sub, text)
+        break
+    return text
+
+
+def write_impl_baseline(facts_dir, files):
+    out = {}
+    for f in files:
+        with open(os.path.join(facts_dir, f)) as fh:
+            d = json.load(fh)
+        out[d["crate"] + ":" + d["crate_type"]] = {m: [[n, list(s)] for n, s in v] for m, v in sorted(_impl_sigs(d).items())}
+    with open(BASELINE_IMPLS, "w") as fh:
+        json.dump(out, fh, indent=0, sort_keys=True)
+    return out
+
+
 def _load_doc(path):
     """json.load with a marshal side-cache (same directory, same content, 10x faster to read)."""
     import marshal
     mp = path + ".marshal"
     try:
-        if os.path.getmtime(mp) >= os.path.getmtime(path):
+        if os.path.getmtime(mp) >= max(os.path.getmtime(path), os.path.getmtime(BASELINE_IMPLS) if os.path.exists(BASELINE_IMPLS) else 0):
             with open(mp, "rb") as fh:
                 return marshal.load(fh)
     except (OSError, ValueError, EOFError, TypeError):
         pass
     with open(path) as fh:
-        d = json.load(fh)
+        text = fh.read()
+    d = json.loads(text)
+    ren = _impl_renumbering(d)
+    if ren:
+        d = json.loads(_renumber_text(text, ren))
+        d["impl_renumbered"] = sorted("%s::{impl#%d}->%d" % (m, n, t) for (m, n), t in ren.items())
     try:
         tmp = mp + ".%d" % os.getpid()
         with open(tmp, "wb") as fh:
